@@ -20,8 +20,9 @@ for g in reg.ALL:
         print("translator failed:", g.__module__, e)
 PY
 cd lean
-# root module = every model/spec/lemma/property file (Findings are built by their own checks)
+# driver dispatch table + root module; every model/spec/lemma/property module is built by name
 /venv/bin/python -B ../tools/gen_wire_all.py
-lake build JinjaV jv-driver 2>&1 | tail -5
+mods=$(find JinjaV/Props JinjaV/Lemmas JinjaV/Spec JinjaV/Model -name '*.lean' | sort | sed 's|/|.|g; s|\.lean$||')
+lake build JinjaV jv-driver $mods 2>&1 | tail -5
 test -x .lake/build/bin/jv-driver
 echo "(ping 1)" | .lake/build/bin/jv-driver
